@@ -181,6 +181,9 @@ func c12List(tier string) []c12Case {
 	for i := 0; i < nm; i++ {
 		out = append(out, c12Case{Family: "half-duplex", N: 125})
 	}
+	for i := 0; i < 4; i++ {
+		out = append(out, c12Case{Family: "two-sources", N: i})
+	}
 	return out
 }
 
@@ -438,6 +441,84 @@ func hasBodyForUnknown(syms []int) bool {
 	return n >= 2
 }
 
+// c12TwoSources: a peer that puts envelopes with two different source names on one connection.
+// Streams are known by their identifier: a body for an identifier nobody opened is owed its reset
+// whatever name it carries, and nothing of it reaches the handler of another stream - also when
+// name and identifier of the two, written one after the other, read the same ("c0"+"11" / "c01"+"1").
+func c12TwoSources(tier string, variant int, res *core.Result) {
+	b := bed.New(bed.Opts{Cap: variant % 2, Serialise: variant%2 == 0})
+	var mu sync.Mutex
+	runs := 0
+	var recvd [][]byte
+	b.Impl.DefS = func(t, k string, ss grpc.ServerStream) error {
+		mu.Lock()
+		runs++
+		mu.Unlock()
+		for {
+			var m svc.BV
+			if err := ss.RecvMsg(&m); err != nil {
+				return nil
+			}
+			mu.Lock()
+			recvd = append(recvd, append([]byte{}, m.Value...))
+			mu.Unlock()
+		}
+	}
+	own, _ := proto.Marshal(&svc.BV{Value: []byte("own")})
+	foreign, _ := proto.Marshal(&svc.BV{Value: []byte("foreign")})
+	srcA, idA, srcB, idB := "c0", uint64(11), "c01", uint64(1)
+	if variant >= 2 {
+		srcA, idA, srcB, idB = "c1", uint64(12), "c11", uint64(2)
+	}
+	hd := func(src string) *goatorepo.RequestHeader {
+		return &goatorepo.RequestHeader{Method: svc.MBidi, Source: src, Destination: "srv"}
+	}
+	seq := []*wire.Rpc{
+		{Id: idA, Header: hd(srcA)},
+		{Id: idB, Header: hd(srcB), Body: &goatorepo.Body{Data: foreign}},
+		{Id: idA, Header: hd(srcA), Body: &goatorepo.Body{Data: own}},
+		{Id: idA, Header: hd(srcA), Status: &goatorepo.ResponseStatus{Code: 0, Message: "OK"}, Trailer: &goatorepo.Trailer{}},
+	}
+	for _, e := range seq {
+		done := make(chan error, 1)
+		go func() { done <- b.Links[0].A.Write(context.Background(), e) }()
+		settle(tier, func() bool { return len(done) > 0 })
+	}
+	quiet(tier)
+	resets, trailers := 0, 0
+	for _, e := range b.Links[0].Tap.Log() {
+		if e.Dir != 1 {
+			continue
+		}
+		if e.Rpc.GetId() == idB && e.Rpc.GetReset_() != nil {
+			resets++
+		}
+		if e.Rpc.GetId() == idA && e.Rpc.GetTrailer() != nil && e.Rpc.GetReset_() == nil {
+			trailers++
+		}
+	}
+	mu.Lock()
+	what := fmt.Sprintf("[open %s#%d, body %s#%d, body %s#%d, half-close %s#%d]", srcA, idA, srcB, idB, srcA, idA, srcA, idA)
+	if resets != 1 {
+		res.Violate("missing-reset-or-unary-invocation", "after %s: %d resets for the never-opened id %d (want 1)", what, resets, idB)
+	}
+	if runs != 1 || len(recvd) != 1 || string(recvd[0]) != "own" {
+		res.Violate("stream-handler-got-foreign-envelope", "after %s: %d handler runs, the handler of #%d received %q (want one run, [\"own\"])", what, runs, idA, recvd)
+	}
+	if trailers != 1 {
+		res.Violate("stream-not-completed", "after %s: %d trailers for #%d (want 1)", what, trailers, idA)
+	}
+	mu.Unlock()
+	g, err := svc.Invoke(context.Background(), b.Conns[0], "probe", []byte("probe"))
+	if err != nil || string(g) != "probe" {
+		res.Violate("probe-answered-wrongly", "after %s a probe call got %q err=%v", what, g, err)
+	}
+	res.Stat("sequences_two-sources", 1)
+	b.Close()
+	bed.Hygiene(watchdog(tier))
+	bed.ResetRecent()
+}
+
 func c12Run(tier string, seed int64, idx int) *core.Result {
 	c := c12List(tier)[idx]
 	r := rng(seed, idx, "c12")
@@ -549,6 +630,9 @@ func c12Run(tier string, seed int64, idx int) *core.Result {
 			c12OneMode(tier, seq, sy, res, func() string { return "half-duplex " + c12Desc(sy) }, true)
 			c12SlowReader = false
 		}
+	case "two-sources":
+		c12TwoSources(tier, c.N, res)
+		evals++
 	case "mutate":
 		// field-level mutations of a valid conversation: a unary call, a bidi stream with two bodies and half-close
 		for i := 0; i < c.N; i++ {
@@ -634,12 +718,12 @@ func init() {
 	core.Register(&core.Prop{
 		ID:         "C12",
 		Level:      "exploration",
-		Rule:       "alphabet = 29 envelope shapes x 2 stream ids (58 symbols); ALL sequences of length <= 3 (quick: 198 534) / <= 4 (thorough: 11 515 030) are fed by a scripted peer to a fresh server connection, each followed by a valid probe request that must be answered correctly, a reference-dispatcher check (unary handler invocation count in the allowed range, no handler for wrong destination / malformed requests, one reset per body addressed to a never-opened id), and the end of the connection after which Serve must return; plus sequences of 2..12 envelopes (every fifth: a burst of 20..40, nearly all bodies for never-opened ids, each owed its reset) that open no stream fed by a half-duplex peer (it writes the whole batch and the probe before reading anything; now and then it waits another 1.2 s of real time before it reads), seeded field-level mutations of a valid conversation and random sequences of length 5..40 (and 10^5 of length 5 in thorough). distinct_nontrivial = enumerated sequences (all distinct by construction) + distinct other batches.",
+		Rule:       "alphabet = 29 envelope shapes x 2 stream ids (58 symbols); ALL sequences of length <= 3 (quick: 198 534) / <= 4 (thorough: 11 515 030) are fed by a scripted peer to a fresh server connection, each followed by a valid probe request that must be answered correctly, a reference-dispatcher check (unary handler invocation count in the allowed range, no handler for wrong destination / malformed requests, one reset per body addressed to a never-opened id), and the end of the connection after which Serve must return; plus sequences of 2..12 envelopes (every fifth: a burst of 20..40, nearly all bodies for never-opened ids, each owed its reset) that open no stream fed by a half-duplex peer (it writes the whole batch and the probe before reading anything; now and then it waits another 1.2 s of real time before it reads), four sequences in which a second source name appears on the connection (a body for a never-opened id under a name that, written in front of the id, reads like an open stream's: reset owed, nothing reaches the other stream's handler), seeded field-level mutations of a valid conversation and random sequences of length 5..40 (and 10^5 of length 5 in thorough). distinct_nontrivial = enumerated sequences (all distinct by construction) + distinct other batches.",
 		Plan:       func(tier string, seed int64) int { return len(c12List(tier)) },
 		Run:        c12Run,
 		Exhaustive: func(string) bool { return true },
 		RequiredStats: func(string) []string {
-			return []string{"sequences_enum", "sequences_mutate", "sequences_random", "sequences_half-duplex"}
+			return []string{"sequences_enum", "sequences_mutate", "sequences_random", "sequences_half-duplex", "sequences_two-sources"}
 		},
 		Assumptions: []string{"exhaustive = every sequence over the 50-symbol alphabet up to the stated length; schedules within a sequence are not enumerated", "stream handlers alternate between returning at once and echoing until end of stream"},
 		Budget:      nil,
